@@ -46,6 +46,15 @@ def canon(a):
     return {"shape": list(a.shape), "vals": vals, "dtype": str(a.dtype)}
 
 
+def scribble(a):
+    """Overwrite a returned array in place (after it has been recorded): later reads of the
+    same object must not see this - a returned array that aliases internal state would."""
+    try:
+        np.ma.getdata(a)[...] = -12345.0
+    except Exception:
+        pass
+
+
 def scalar(x):
     if x is np.ma.masked:
         return {"shape": [], "vals": [None], "dtype": "masked"}
@@ -63,9 +72,13 @@ def run_ops(objs, ops):
                 continue
             k = op["op"]
             if k == "array":
-                res.append(canon(tgt.array))
+                a = tgt.array
+                res.append(canon(a))
+                scribble(a)
             elif k == "getitem":
-                res.append(canon(tgt[conv_index(op["index"])].array))
+                a = tgt[conv_index(op["index"])].array
+                res.append(canon(a))
+                scribble(a)
             elif k == "first":
                 res.append(scalar(tgt.first_element()))
             elif k == "last":
